@@ -289,8 +289,10 @@ CLAIMED["C05"] = {
     "functions); the standard sampler's uncertainty sqrt(info/nlive) is "
     "reported as the sampler's value, no independent closed form is "
     "claimed; the INS uncertainty (longdouble exponentials), the INS result "
-    "dictionary wiring and 'number of INS samples = sum of level draws' are "
-    "not under contract; FlowSampler.run_* attribute wiring not under "
+    "dictionary wiring are not under contract ('number of INS samples = "
+    "sum of level draws' IS: it is part of the loop invariant of "
+    "ImportanceNestedSampler.nested_sampling_loop proved for C03 and "
+    "included in this check); FlowSampler.run_* attribute wiring not under "
     "contract. Floats as reals.",
 }
 
